@@ -107,7 +107,7 @@ theorem rel_nf {c : Cfg} (hf : c.feats.format = false) (hd : c.debug = false) : 
     rw [hs]; intro h; cases h⟩
 
 section
-variable {c : Cfg} (hc : Rel c) (hb : c.bytesContiguous = true)
+variable {c : Cfg} (hc : Rel c) (hb : NumContig c)
 include hc hb
 
 theorem iterCount_step_inc_k (k : Comp) (hk : k ≠ .special) (b : Bytes) :
@@ -133,7 +133,7 @@ theorem skipZerosLoop_g (k : Comp) (hk : k ≠ .special) :
   | succ n ih =>
     intro b hv hfu
     unfold skipZerosLoop
-    simp only [readIfValueCased_g hc hb, bind, Except.bind, pure, Except.pure]
+    simp only [readIfValueCased_g hc hb k hk, bind, Except.bind, pure, Except.pure]
     cases hx : b.slc[b.index]? with
     | none => simp [drop_of_none hx, leadZ]
     | some x =>
@@ -218,7 +218,7 @@ def emptyBranch (c : Cfg) (isPartial : Bool) (o : POpts) (ip : IntPart) (fp : Fr
 theorem emptyBranch_err (isPartial : Bool) (o : POpts) (ip : IntPart) (fp : FracPart) :
     ∃ k i, emptyBranch c isPartial o ip fp = .error (.err k i) := by
   unfold emptyBranch
-  simp only [peek_contig hc hb, bind, Except.bind]
+  simp only [peek_num hc hb .integer (by decide), bind, Except.bind]
   split
   · exact ⟨_, _, rfl⟩
   · exact ⟨_, _, rfl⟩
@@ -233,7 +233,7 @@ theorem parseNumber_g (isPartial : Bool) (o : POpts) (b : Bytes) (neg fv : Bool)
         | .error e => .error e
         | .ok fp =>
           if (c.requiredMantissaDigits &&
-              (decide (ip.nDigits + fp.nAfterDot = 0) || (c.feats.format && decide (fp.byte.index = 0)))) = true then
+              (decide (ip.nDigits + fp.nAfterDot = 0) || (c.feats.format && decide (fp.byte.currentCount c = 0)))) = true then
             emptyBranch c isPartial o ip fp
           else
             match exponentPhase c (fp.byte.firstIs o.exp (c.caseSensitiveExponent && c.feats.format)) fp.byte
@@ -259,7 +259,7 @@ theorem parseNumber_g (isPartial : Bool) (o : POpts) (b : Bytes) (neg fv : Bool)
     cases fractionPhase c o ip.byte ip.mantissa with
     | error e => rfl
     | ok fp =>
-      simp only [currentCount_g hc hb]
+      simp only
       split
       · unfold emptyBranch
         simp only [bind, Except.bind]
@@ -355,7 +355,7 @@ theorem parseNumber_trunc (p : Bool) (o : POpts) (b : Bytes) (neg fv : Bool) (r 
             rw [parseNumber_g hc hb, i9 n (by omega)]
             simp only
             rw [f7 n (by omega)]
-            simp only [trunc_index]
+            simp only [trunc_index, trunc_currentCount]
             rw [if_neg hcnd]
             have hfi : (trunc n fp.byte).firstIs o.exp (c.caseSensitiveExponent && c.feats.format) =
                 fp.byte.firstIs o.exp (c.caseSensitiveExponent && c.feats.format) := by
